@@ -28,6 +28,7 @@ def run(ctx):
 
 
     project_stage(ctx)
+    walk_stage(ctx)
 
 
 def project_stage(ctx):
@@ -64,6 +65,34 @@ def project_stage(ctx):
     ctx.cov["project_stage"] = {"runs": n, "runs_outside_c15_slice_where_reports_differ": len(ext), "driver": summ,
                                 "model": "Project.tla ReportI = the real report in every run (else DRIFT project-paths-model)"}
     ctx.cov["traces_validated_against_impl"] += n - len(fails)
+    ctx.cov["evaluations"] = ctx.cov.get("evaluations", 0) + n
+
+
+def walk_stage(ctx):
+    """Walk.tla: which files of a tree a run looks at (-l, --no-ignore, --globs, explicit files).  No listed property speaks
+    about this layer; the stage keeps the model bound to the code (drift) and reports where the order of the walk's
+    filters differs from the documented reading as an extension finding."""
+    mc = vlib.model_check(ctx, "mc/MC_Walk.tla", "mc/MC_Walk.cfg", workers=2, timeout=600)
+    wit = vlib.run_tlc(ctx, "mc/MC_Walk.tla", "mc/MC_Walk_witness.cfg", workers=2, timeout=600, keep_vec=False)
+    if wit.violated != "AgreeEverywhere":
+        raise vlib.ToolError("MC_Walk_witness: AgreeEverywhere is no longer violated - the model lost the order of the filters")
+    vec = ctx.path("walk-vectors.ndjson")
+    vlib.write_ndjson(vec, mc.vec)
+    rec = ctx.path("walk-records.ndjson")
+    summ = vlib.agv_ok(ctx, ["drive", "walk", "--vectors", vec, "--out", rec], timeout=1800)
+    before = len(ctx.cov["drift"])
+    n, _ = vlib.validate_trace(ctx, "trace/Trace_Walk.tla", "trace/Trace_Walk.cfg", rec)
+    new = ctx.cov["drift"][before:]
+    ext = [d for d in new if any(str(w).startswith("ext:") for w in (d.get("what") or []))]
+    model = [d for d in new if any(not str(w).startswith("ext:") for w in (d.get("what") or []))]
+    ctx.cov["drift"] = ctx.cov["drift"][:before] + model
+    if ext:
+        case = vlib.nth_line(rec, ext[0]["index"])
+        print("EXTENSION-FINDING files walked (%d of %d runs, e.g. `sgv %s` reports %s): a selected language (-l) or an "
+              "allow-listing glob answers before the hidden-file and ignore-file filters are asked" %
+              (len(ext), n, " ".join(case["typed"]), case["files"]), flush=True)
+    ctx.cov["walk_stage"] = {"runs": n, "runs_where_walked_files_differ_from_the_documented_filters": len(ext), "driver": summ,
+                             "model": "Walk.tla ScannedI = the files reported in every run (else DRIFT walk-model)"}
     ctx.cov["evaluations"] = ctx.cov.get("evaluations", 0) + n
 
 
